@@ -294,6 +294,12 @@ func drawQueueConfig(rng *rand.Rand) qconfig {
 		return qconfig{Kind: limUnlimited, Detail: "unlimited"}
 	}
 	hard := 1 + rng.IntN(8)
+	if rng.IntN(6) == 0 {
+		// only the hard limit is given: both defaults apply (a zero or
+		// negative soft quota means the hard limit, zero credit means the
+		// soft quota)
+		return qconfig{Kind: limQuota, Hard: hard, Soft: -rng.IntN(2), Burst: 0, Detail: fmt.Sprintf("hard=%d only (defaults)", hard)}
+	}
 	soft := rng.IntN(hard + 1) // 0 means "use the hard limit"
 	var burst float64
 	switch rng.IntN(5) {
